@@ -1,6 +1,7 @@
 package v2
 
 import (
+	"bytes"
 	"encoding/json"
 	"errors"
 	"net/http"
@@ -68,8 +69,11 @@ func getJsonResponse(r *http.Request, w http.ResponseWriter, resource queries.Re
 		if err != nil {
 			return err
 		}
+		// numbers are kept as they were rendered: amounts and volumes do not fit a float64
 		var fields map[string]any
-		err = json.Unmarshal(s, &fields)
+		decoder := json.NewDecoder(bytes.NewReader(s))
+		decoder.UseNumber()
+		err = decoder.Decode(&fields)
 		if err != nil {
 			return err
 		}
